@@ -409,6 +409,20 @@ func c07Exec(c Case) (outs []string, fails []Failure, tags []string) {
 				out = "accept"
 				if err != nil {
 					out = "reject"
+				} else {
+					// the property's own predicate: an accepted Ethereum transaction offers at least gasLimit × minGasPrice
+					price := gp
+					if typ >= 2 {
+						price = new(big.Int).Add(tip, base)
+						if cap.Cmp(price) < 0 {
+							price = cap
+						}
+					}
+					offered := new(big.Int).Mul(new(big.Int).Mul(price, new(big.Int).SetUint64(gas)), new(big.Int).Exp(big.NewInt(10), big.NewInt(18), nil))
+					need := new(big.Int).Mul(mustBig(f[1]), new(big.Int).SetUint64(gas))
+					if offered.Cmp(need) < 0 {
+						fl("C07:eth-floor", fmt.Sprintf("an Ethereum transaction offering %s per gas (gas limit %d) was accepted below the minimum gas price %s/1e18", price, gas, f[1]))
+					}
 				}
 			}
 		}()
